@@ -19,7 +19,9 @@ pub fn campaign(ctx: &mut Ctx, target: &str, jobs: usize, runs_per_job: u64, max
     let fuzz_dir = format!("{vd}/fuzz");
     let t0 = std::time::Instant::now();
     let build = Command::new("cargo")
-        .args(["+nightly", "fuzz", "build", "--fuzz-dir", &fuzz_dir, target])
+        // no AddressSanitizer: the crates under test are safe Rust and the oracle inside the target is what
+        // decides; without it the targets run about five times as many cases per second
+        .args(["+nightly", "fuzz", "build", "--fuzz-dir", &fuzz_dir, "-s", "none", target])
         .current_dir(&vd)
         .env("CARGO_NET_OFFLINE", "true")
         .output();
